@@ -227,9 +227,7 @@ func (r ChildResult) CrashSummary() string {
 			for _, m := range lines[i:] {
 				m = strings.TrimSpace(m)
 				if strings.HasPrefix(m, "github.com/relex/slog-agent/") {
-					if j := strings.Index(m, "("); j > 0 {
-						m = m[:j]
-					}
+					m = stripArgs(m)
 					frames = append(frames, strings.TrimPrefix(m, "github.com/relex/slog-agent/"))
 					if len(frames) >= 4 {
 						break
@@ -272,9 +270,7 @@ func StuckInAgent(dump string) []string {
 		for _, l := range strings.Split(block, "\n") {
 			l = strings.TrimSpace(l)
 			if strings.HasPrefix(l, "github.com/relex/slog-agent/") {
-				if j := strings.Index(l, "("); j > 0 {
-					l = l[:j]
-				}
+				l = stripArgs(l)
 				l = strings.TrimPrefix(l, "github.com/relex/slog-agent/")
 				if !seen[l] {
 					seen[l] = true
@@ -285,4 +281,12 @@ func StuckInAgent(dump string) []string {
 		}
 	}
 	return out
+}
+
+// stripArgs removes the argument list of a stack frame line: pkg.(*T).Method(0x1, ...) -> pkg.(*T).Method
+func stripArgs(frame string) string {
+	if j := strings.LastIndex(frame, "("); j > 0 && !strings.HasPrefix(frame[j:], "(*") {
+		frame = frame[:j]
+	}
+	return strings.TrimSuffix(frame, "...")
 }
